@@ -116,7 +116,7 @@ def _fanin(name):
     def extra(o, driver, rng):
         import sched_corr as scorr
         n_sc, n_sched = (140, 3) if o.tier == "quick" else (3000, 5)
-        scs = [scorr.gen_fanin_scenario(rng) if i % 2 else scorr.gen_group_mix_scenario(rng) for i in range(n_sc)]
+        scs = [scorr.gen_fanin_scenario(rng) if i % 3 == 0 else scorr.gen_group_mix_scenario(rng) for i in range(n_sc)]
         res = scorr.run_sched_suite(driver, rng, n_sc, n_sched, name="fanin", monitor=_mon(name), scenarios=scs)
         o.suites.append(res)
         o.violations.extend(res["violations"])
